@@ -46,6 +46,8 @@ def run(ctx, B):
         r, lines = X.op("NISTList", "i", [1])
         nist = lines[0].split("\t")[1:]
         names = formulas(syms_ok, quick, ctx.seed) + (nist if not quick else nist[::4] + ["Water, Liquid", "Air, Dry (near sea level)"]) + ["", "Uu", "water", None, "H2O)", "Rf"]
+        # catalogue names that are proper prefixes of other catalogue names (and one truncated name): a lookup that compares prefixes confuses exactly these
+        names += [n for n in nist if any(m != n and (m.startswith(n) or n.startswith(m)) for m in nist)] + ["Water, Liq", "Propane, Liqui"]
         names = list(dict.fromkeys(names))
         # composition of every name through the public API (formula first, NIST second)
         rp, lp = X.op("CompoundParser", "s", names); bp = xrl.parse_blob_lines(lp)
@@ -109,6 +111,19 @@ def run(ctx, B):
                 ctx.violation("%s|%s|%s|no-error-slot-differs" % (cfg, fn, kind), "%s%r [%s] returns %r with an error slot (error: %s) but %r without one" % (
                     fn, tuple(a), cfg, float(rc["v0"][j]), bool(rc["flags"][j] & F_ERR), float(r1["v0"][j])),
                     dict(cfg=cfg, calls=[dict(fn=fn, args=a, expect=dict(type="noslot-same"))]))
+            # ... and once more with the whole batch reversed (names descending, so that a catalogue name is followed by the names that are its proper
+            # prefixes): the value of a tuple must not depend on the order of the batch (a lookup cache compared by prefix, a stale density)
+            rv = [(c[::-1] if isinstance(c, np.ndarray) else list(reversed(c))) for c in cols]
+            r2 = X.call(fn, *rv); ctx.add(evaluations=len(r2))
+            dif = np.nonzero((r2["v0"][::-1].view(np.uint64) != rc["v0"].view(np.uint64)) | (r2["v1"][::-1].view(np.uint64) != rc["v1"].view(np.uint64)) | ((r2["flags"][::-1] & F_ERR) != (rc["flags"] & F_ERR)))[0]
+            for j in dif[:20]:
+                a = [c[j] if not isinstance(c[j], (np.floating, np.integer)) else c[j].item() for c in cols]
+                jn = min(j + 1, len(rc) - 1)
+                prev = [c[jn] if not isinstance(c[jn], (np.floating, np.integer)) else c[jn].item() for c in cols]
+                kind = "NULL" if a[0] is None else ("nist" if comp.get(a[0]) and comp[a[0]][2] is not None else "formula" if comp.get(a[0]) else "invalid")
+                ctx.violation("%s|%s|%s|order-dependent" % (cfg, fn, kind), "%s%r [%s] = %r (err=%s) in the natural order of the batch but %r (err=%s) right after %s%r" % (
+                    fn, tuple(a), cfg, float(rc["v0"][j]), bool(rc["flags"][j] & F_ERR), float(r2["v0"][::-1][j]), bool(r2["flags"][::-1][j] & F_ERR), fn, tuple(prev)),
+                    dict(cfg=cfg, calls=[dict(fn=fn, args=prev), dict(fn=fn, args=a)]))
             return rc
 
         for fn in F1:
